@@ -228,7 +228,7 @@ MANIFEST_TEXT = {
                "file (st_dev, st_ino) the sender attached in that position; a sender announcing more than it attached, exceeding the per-message maximum or announcing descriptors "
                "without negotiation is disconnected and nothing of the message is processed; a sender attaching more than announced is disconnected within pending_fd_timeout of "
                "virtual time once left alone (bounded liveness); the simulated kernel's ledger of every descriptor number installed into the daemon shows each closed exactly once "
-               "(no leak after the connections are gone and the bus is shut down, no double close), and no descriptor reaches a client without a message announcing it. A connection with surplus descriptors pending may go on sending more surplus; its deadline stays one pending_fd_timeout after the bus read the first surplus and is checked exactly after every clock step.",
+               "(no leak after the connections are gone and the bus is shut down, no double close), and no descriptor reaches a client without a message announcing it. A connection with surplus descriptors pending may go on sending more surplus; its deadline stays one pending_fd_timeout after the bus read the first surplus and is checked exactly after every clock step. Surplus pending per connection is tracked: a further message whose descriptors do not fit beside it in the loader's room (max_message_unix_fds) must get its sender disconnected with nothing processed; recipients' queued descriptors are limited through max_outgoing_unix_fds in a fifth of the plans.",
                "DESIGN.md section 4 C15", "deterministic simulation, seeded history and fault search, model-based oracle plus descriptor ledger in the simulated kernel"),
     "C19": _mt("Seeded search over activation histories through the real daemon with generated service files in a scratch <servicedir>: several senders auto-starting (method calls, "
                "unicast signals, NO_AUTO_START / NO_REPLY variants) and StartServiceByName-ing the same and different activatable names concurrently; the simulated kernel's fork() hands "
@@ -256,7 +256,7 @@ MANIFEST_TEXT = {
                "fallbacks of successively shorter ancestors, nothing after 'handled', nothing skipped, removed handlers not invoked); the caller receives exactly the predicted answer per "
                "call in call order (handler reply / UnknownMethod / UnknownObject / built-in introspection listing exactly the model's children / Ping reply); after every API step the "
                "whole tree as listed by dbus_connection_list_registered and get_object_path_data equals the model; a failed registration (occupied, NoMemory) changes nothing and names "
-               "its error; every unregister function runs exactly once, by connection finalization at the latest.",
+               "its error; every unregister function runs exactly once, by connection finalization at the latest. The listed UnknownObject finding is recognised by its exact condition only (the model tracks the fallback flag of every node the library's tree holds).",
                "DESIGN.md section 4 C20", "deterministic simulation, seeded history and fault search, reference-model oracle stepped with the real object tree",
                note="Trusted base: simulated kernel, independent codec for the peer, the path-map model. Pinned where the statement is silent: the handlers offered a message are those registered when "
                     "its dispatch started; one removed meanwhile is skipped, one added is not offered. One listed known finding (UnknownMethod sent where UnknownObject is due) is recognised by "
@@ -270,7 +270,7 @@ MANIFEST_TEXT = {
                "exactly the allowed mechanisms, ERROR, DATA, OK <guid>); the connection counts as authenticated iff the model reached BEGIN after a completed permitted mechanism AND the "
                "admission rule admits that identity; the uid / anonymity / pid the application sees equal what the mechanism established; the application receives exactly the complete "
                "messages that follow the accepted BEGIN (no handshake byte becomes message data); BEGIN out of place, the 6th rejection or a line beyond 16 KiB end the connection, and "
-               "nothing else does. EXTERNAL and cookie identities include near misses of the peer's own uid (a digit more or less, leading zero, C-style octal / hex, 2^32 more, trailing blank): never OK unless some reading denotes the peer's own uid.",
+               "nothing else does. EXTERNAL and cookie identities include near misses of the peer's own uid (a digit more or less, leading zero, C-style octal / hex, 2^32 more, trailing blank): never OK unless some reading denotes the peer's own uid. Conversations that reach OK and are then cancelled do so in every way (identity in the initial response, in DATA, none - empty DATA -, a complete cookie exchange, ANONYMOUS) before another mechanism is run: nothing of the abandoned exchange may survive.",
                "DESIGN.md section 4 C08, Appendix D", "deterministic simulation, seeded input and chunking search, reference state machine oracle over the recorded byte history",
                note="Trusted base: simulated kernel (stream, SO_PEERCRED, NSS), the AuthModel and SHA-1 of the independent codec, the real file system for the scratch keyring. Pinned where the "
                     "specification is silent: the rejection bound (6), identities that are not plain digits (either verdict accepted, never for another uid), NEGOTIATE_UNIX_FD answered "
